@@ -139,7 +139,7 @@ CHECKS = {
             "DESIGN.md section 2 C15"),
     "C16": ("exploration",
             "grammar-aware fuzzing with Hypothesis (token-soup generator over 19 parser configurations, exception-type oracle) + generated intended trees rendered with the documented precedence and compared through the reference evaluator",
-            "totality: strings assembled from operators, brackets, quotes, field names of every field type, numbers, date words, unicode from all planes and targeted malformed "
+            "matrix: every parser configuration x every field type prefix x 46 construct templates, enumerated. totality: strings assembled from operators, brackets, quotes, field names of every field type, numbers, date words, unicode from all planes and targeted malformed "
             "snippets are parsed by 19 parser configurations; parse() may only return a Query or raise QueryParserError, and searching the result on a fixed index of all field "
             "types may only raise QueryError. meaning: generated trees (NOT/AND/OR/ANDNOT/ANDMAYBE/REQUIRE/implicit grouping, field prefixes, phrases with slop, ranges in all "
             "bracket forms and open ends, wildcards, boosts) are rendered to the query language and the parsed query must select exactly the documents the reference evaluator "
